@@ -34,7 +34,11 @@ func (f *frame) loopFrameAssume(li *loopInfo, keys []string, cur *State, reach T
 			var cover []Term
 			for _, m := range f.entryMods {
 				if m.key == k {
-					cover = append(cover, And(m.condOrTrue(), Eq(ot, m.obj)))
+					if m.all {
+						cover = append(cover, m.condOrTrue())
+					} else {
+						cover = append(cover, And(m.condOrTrue(), Eq(ot, m.obj)))
+					}
 				}
 			}
 			body := Implies(And(pre, Not(Or(cover...))), Eq(Select(h1, ot), Select(h0, ot)))
